@@ -791,3 +791,150 @@ func nilSensitiveUses(v ssa.Value) []derefUse {
 	walk(v, 0)
 	return out
 }
+
+// RunTypedNil: a pointer that may be nil must not be boxed into an interface without a nil test:
+// the interface would be non-nil (typed nil) and every later `x == nil` check would miss it.
+func (m *Model) RunTypedNil(s *Sink, rule string, fns []*ssa.Function) {
+	nilFns := m.mayReturnNil()
+	n := 0
+	for _, fn := range fns {
+		a := m.NewArith(fn)
+		for _, b := range fn.Blocks {
+			for _, in := range b.Instrs {
+				mi, ok := in.(*ssa.MakeInterface)
+				if !ok {
+					continue
+				}
+				if _, isPtr := mi.X.Type().Underlying().(*types.Pointer); !isPtr {
+					continue
+				}
+				call, ok := mi.X.(*ssa.Call)
+				if !ok {
+					continue
+				}
+				var prod *ssa.Function
+				for _, cal := range m.calleesOf(call) {
+					if _, isNil := nilFns[cal]; isNil {
+						prod = cal
+					}
+				}
+				if prod == nil {
+					continue
+				}
+				n++
+				key := fmt.Sprintf("%s|possibly-nil %s from %s is not boxed unchecked", fnKey(fn), typeStr(mi.X.Type()), prod.Name())
+				if nilGuarded(a, call, expandFacts(factsAt(b))) {
+					s.OK(rule, key, m.InstrPos(mi), "nil-tested before the conversion to an interface")
+				} else {
+					s.Violation(rule, key, m.InstrPos(mi), "%s converts the %s returned by %s, which may be nil (%s), to an interface without a nil test: the result is a non-nil interface holding a nil pointer, so the callers' `== nil` checks do not fire and the nil object is dereferenced later", fnKey(fn), typeStr(mi.X.Type()), fnKey(prod), nilFns[prod])
+				}
+			}
+		}
+	}
+	s.OK(rule, "typed-nil|no possibly-nil pointer is boxed unchecked", "-", "%d conversions of possibly-nil pointers to interfaces examined", n)
+}
+
+// RunNilRet: a pointer result that is nil whenever an accompanying error result is non-nil must not be
+// dereferenced before every such error has been tested.
+func (m *Model) RunNilRet(s *Sink, rule string, fns []*ssa.Function) {
+	// producers: functions with >= 2 results, result 0 a pointer, some return with nil result 0 and a non-nil error-like result j
+	type prodInfo struct{ errIdx map[int]bool }
+	prods := map[*ssa.Function]*prodInfo{}
+	for _, fn := range m.ModFns {
+		if fn.Blocks == nil || isUserPkg(fnPkgPath(fn)) || fn.Signature.Results().Len() < 2 {
+			continue
+		}
+		if _, isPtr := fn.Signature.Results().At(0).Type().Underlying().(*types.Pointer); !isPtr {
+			continue
+		}
+		pi := &prodInfo{errIdx: map[int]bool{}}
+		for _, b := range fn.Blocks {
+			ret, ok := b.Instrs[len(b.Instrs)-1].(*ssa.Return)
+			if !ok || !isNilConst(ret.Results[0]) {
+				continue
+			}
+			for j := 1; j < len(ret.Results); j++ {
+				if isErrorLike(fn.Signature.Results().At(j).Type()) && !isNilConst(ret.Results[j]) {
+					pi.errIdx[j] = true
+				}
+			}
+		}
+		if len(pi.errIdx) > 0 {
+			prods[fn] = pi
+		}
+	}
+	n := 0
+	for _, fn := range fns {
+		a := m.NewArith(fn)
+		for _, b := range fn.Blocks {
+			for _, in := range b.Instrs {
+				call, ok := in.(*ssa.Call)
+				if !ok || call.Call.StaticCallee() == nil {
+					continue
+				}
+				pi := prods[call.Call.StaticCallee()]
+				if pi == nil {
+					continue
+				}
+				var ptr ssa.Value
+				errs := map[int]ssa.Value{}
+				for _, r := range *call.Referrers() {
+					if ex, ok := r.(*ssa.Extract); ok {
+						if ex.Index == 0 {
+							ptr = ex
+						} else if pi.errIdx[ex.Index] {
+							errs[ex.Index] = ex
+						}
+					}
+				}
+				if ptr == nil {
+					continue
+				}
+				for _, use := range derefUses(ptr) {
+					n++
+					key := fmt.Sprintf("%s|result of %s is used only after its errors were tested (%s)", fnKey(fn), call.Call.StaticCallee().Name(), use.kind)
+					facts := expandFacts(factsAt(use.at.Block()))
+					ok := nilGuarded(a, ptr, facts)
+					if !ok {
+						ok = true
+						for j := range pi.errIdx {
+							ev, has := errs[j]
+							if !has || !isNilFactFor(a, facts, ev) {
+								ok = false
+							}
+						}
+					}
+					if ok {
+						s.OK(rule, key, m.InstrPos(use.at), "dominated by the nil edge of every error result that can accompany a nil pointer")
+					} else {
+						s.Violation(rule, key, m.InstrPos(use.at), "%s uses the pointer returned by %s (%s) before all of its error results were tested: when the callee fails the pointer is nil and this is a nil dereference (e.g. a syntactically wrong layout file)", fnKey(fn), fnKey(call.Call.StaticCallee()), use.kind)
+					}
+				}
+			}
+		}
+	}
+	s.OK(rule, "nil-with-error|pointer results are used only after their errors were tested", "-", "%d producers returning (nil, error); %d uses examined", len(prods), n)
+}
+
+// isNilFactFor: facts establish v == nil.
+func isNilFactFor(a *Arith, facts []Fact, v ssa.Value) bool {
+	vk := a.canonKey(v)
+	for _, f := range facts {
+		b, ok := f.Cond.(*ssa.BinOp)
+		if !ok || (b.Op != token.EQL && b.Op != token.NEQ) {
+			continue
+		}
+		var other ssa.Value
+		if a.canonKey(b.X) == vk {
+			other = b.Y
+		} else if a.canonKey(b.Y) == vk {
+			other = b.X
+		} else {
+			continue
+		}
+		if c, ok := other.(*ssa.Const); ok && c.IsNil() && (b.Op == token.EQL) == f.Holds {
+			return true
+		}
+	}
+	return false
+}
